@@ -193,4 +193,6 @@ def run(ctx):
 THEOREMS = ['C02_atomic', 'C02_log_only_accepted', 'C02_add_only_scheduled', 'C02_bar_rises_outside_jumpoff',
             'C02_attempt_limit', 'C02_no_trial_when_out', 'C02_refusal_is_rule_violation', 'C02_phase_forward',
             'C02_terminal_absorbing', 'inv_reachable', 'C02_terminal_absorbing_reachable', 'C02_phase_forward_reachable',
-            'C02_refused_means_rule_violation', 'C02_add_before_first_height']
+            'C02_refused_means_rule_violation', 'C02_add_before_first_height', 'wf_reachable', 'allFlags_reachable',
+            'C02_card_shape', 'C02_flags_follow_card', 'C02_accepted_trial_open_cell', 'allConsec_reachable',
+            'C02_three_consecutive_failures']
